@@ -273,9 +273,23 @@ Print Assumptions c02_nothing_to_do_adds_nothing.
    findings S4c-noop-appends: zero bytes; S4-noop-appends: re-created by the last append): 6 messages, checkpoints
    on 2, 4, 6, nothing to do, yet cut points are planned *)
 Theorem c02_nothing_to_do_zero_length_cache_refuted :
-  unplanned w_thread6 2 = [] /\ planned false w_thread6 (CLines []) 2 32 = [6; 4; 2].
+  unplanned w_thread6 2 = [] /\ planned false w_thread6 (seen false (CLines [])) 2 32 = [6; 4; 2].
 Proof. exact zero_length_cache_refuted. Qed.
 Print Assumptions c02_nothing_to_do_zero_length_cache_refuted.
+(* `seen zl`: how the source looks at the file (zl = false: `path.exists()`, the zero-byte file is answered from as
+   found - the witness above; zl = true: the file must hold data, a zero-byte file counts as absent - the S4c
+   repair).  Which one the source does is regenerated on every run (gen_zero_length_comp_sidecar_is_absent,
+   obligation gen_zero_length_policy_ok) and the correspondence cases are checked under that value.  Under
+   zl = true the zero-byte state is coherent: the planner agrees with the truth log for every thread *)
+Theorem c02_zero_length_cache_counts_as_absent : forall (t : pthread) (stride : N) (max_new : nat),
+  planned false t (seen true (CLines [])) stride max_new = firstn max_new (unplanned t stride).
+Proof. exact zero_length_counts_as_absent. Qed.
+Print Assumptions c02_zero_length_cache_counts_as_absent.
+Theorem c02_seen_changes_only_the_zero_length_state : forall (zl : bool) (cc : comp_cache),
+  cc <> CLines [] -> seen zl cc = cc.
+Proof. exact seen_other. Qed.
+Print Assumptions c02_seen_changes_only_the_zero_length_state.
+
 Theorem c02_nothing_to_do_partial_cache_refuted :
   unplanned w_thread6 2 = [] /\ planned false w_thread6 (CLines [(6, 9)]) 2 32 = [4; 2].
 Proof. exact partial_cache_refuted. Qed.
